@@ -1458,8 +1458,59 @@ def e2e_reprojected(ctx):
     ctx.distribution['e2e:reprojection_worst_error_output_px_x1000'] = int(worst_all * 1000)
 
 
+def replay_corpus(ctx):
+    """minimised witnesses (corpus/C01/*.json) are replayed first"""
+    import mapproxy.client.http as http
+    if not os.path.isdir(CORPUS):
+        return
+    up = Upstream()
+    orig_open = http.HTTPClient.open
+    http.HTTPClient.open = lambda self, url, data=None, method=None: up.open(url, data, method)
+    try:
+        for fn in sorted(os.listdir(CORPUS)):
+            if not fn.endswith('.json'):
+                continue
+            case = json.load(open(os.path.join(CORPUS, fn)))
+            try:
+                app, d = build_app(ctx, case['conf'])
+            except Exception as e:  # noqa
+                ctx.fail('e2e:config', 'make_wsgi_app failed for corpus configuration %s: %r' % (fn, e), {'corpus': fn})
+                continue
+            up.requests = []
+            rep = {'corpus': fn, 'conf': case['conf'], 'request': case['request']}
+            ctx.case(('corpus', fn), True)
+            ctx.count('corpus:' + case['type'])
+            if case['type'] == 'map':
+                bbox, size = case['bbox'], tuple(case['size'])
+                up.cell = (bbox[2] - bbox[0]) / size[0] / 2.0
+                rep['duplicate_meta_bbox'] = case.get('duplicate_meta_bbox', False)
+                resp = app.get(case['request'], expect_errors=True)
+                if resp.status_int != 200:
+                    ctx.fail('e2e:error-response', 'corpus %s: status %s' % (fn, resp.status), rep)
+                    continue
+                maps = [r for r in up.requests if r['kind'] == 'getmap']
+                up_res = max([max((r['bbox'][2] - r['bbox'][0]) / r['size'][0], (r['bbox'][3] - r['bbox'][1]) / r['size'][1]) for r in maps] or [up.cell * 2])
+                pixel_oracle(ctx, up, resp.body, bbox, size, up_res, case.get('extent'), None, rep, 'e2e:corpus', tol_px=1.5, stages=case.get('stages', 0))
+            elif case['type'] == 'wmts-fi':
+                resp = app.get(case['request'], expect_errors=True)
+                fis = [r for r in up.requests if 'pos' in r]
+                rect = case['rect']
+                if resp.status_int != 200 or len(fis) != 1:
+                    ctx.fail('fi:wmts-not-forwarded', 'corpus %s: status %s, %d upstream requests' % (fn, resp.status, len(fis)), rep)
+                elif any(abs(a - b) > 1e-6 * (1 + abs(b)) for a, b in zip(fis[0]['bbox'], rect)) or list(fis[0]['pos']) != list(case['pos']):
+                    ctx.fail('fi:wmts-%s-wrong-tile' % case['style'], 'WMTS GetFeatureInfo (%s) %s: tile rectangle %r, forwarded bbox %r pos %r'
+                             % (case['style'], case['request'], rect, fis[0]['bbox'], fis[0]['pos']), rep)
+    finally:
+        http.HTTPClient.open = orig_open
+
+
 def run(ctx):
     T = Table()
+    try:
+        replay_corpus(ctx)
+    except Exception as e:  # noqa
+        import traceback
+        ctx.problem('harness', 'corpus replay could not run: %r' % (e,), traceback.format_exc())
     grid_defs = run_pure(ctx, T)
     for name, f in [('same_srs', lambda: e2e_same_srs(ctx, T, grid_defs)), ('featureinfo', lambda: e2e_featureinfo(ctx)),
                     ('reprojected', lambda: e2e_reprojected(ctx))]:
